@@ -149,7 +149,7 @@ PROPS = {
         'parts': [
             part('plain', FLOW, 900, 12000, monitors=[M.mon_c01], props=['C01'], sub='plain', variants=3, scheds=ALLSCHED, snap='live'),
             part('mixed', FLOW, 150, 2000, monitors=[M.mon_c01], props=['C01'], sub='mixed', variants=2, scheds=QUIESCENT, snap='live'),
-            part('loop', FLOW, 60, 600, monitors=[M.mon_c01], props=['C01'], sub='loop', variants=2, scheds=QUIESCENT, snap='live'),
+            part('loop', FLOW, 60, 600, monitors=[M.mon_c01], props=['C01'], sub='loop', twojumps=0.0, variants=2, scheds=QUIESCENT, snap='live'),
             part('error', ERROR, 300, 6000, monitors=[M.mon_c01], props=['C01'], chunk=60),
             part('sub', SUB, 250, 5000, monitors=[M.mon_c01], props=['C01'], chunk=60),
             part('gen', GEN, 250, 5000, monitors=[M.mon_c01], props=['C01'], chunk=60, sub='gen'),
@@ -172,7 +172,7 @@ PROPS = {
             part('duel', ACTIONS, 500, 10000, monitors=[M.mon_c02], props=['C02'], sub='duel'),
             part('twins', ACTIONS, 300, 6000, monitors=[M.mon_c02], props=['C02'], sub='twins'),
             part('plain', FLOW, 300, 6000, monitors=[M.mon_c02], props=['C02'], sub='plain', variants=2, scheds=ALLSCHED, snap='live'),
-            part('loop', FLOW, 40, 400, monitors=[M.mon_c02], props=['C02'], sub='loop', variants=2, scheds=QUIESCENT, snap='live'),
+            part('loop', FLOW, 40, 400, monitors=[M.mon_c02], props=['C02'], sub='loop', twojumps=0.0, variants=2, scheds=QUIESCENT, snap='live'),
             part('error', ERROR, 500, 8000, monitors=[M.mon_c02], props=['C02'], chunk=60, second_error=True),
             part('gen', GEN, 200, 4000, monitors=[M.mon_c02], props=['C02'], chunk=60, sub='gen'),
             part('sub', SUB, 200, 4000, monitors=[M.mon_c02], props=['C02'], chunk=60),
@@ -192,7 +192,7 @@ PROPS = {
             part('duel', ACTIONS, 500, 10000, monitors=[M.mon_c03], props=['C03'], sub='duel'),
             part('plain', FLOW, 500, 8000, monitors=[M.mon_c03], props=['C03'], sub='plain', variants=2, scheds=ALLSCHED),
             part('mixed', FLOW, 100, 1500, monitors=[M.mon_c03], props=['C03'], sub='mixed', variants=2, scheds=QUIESCENT),
-            part('loop', FLOW, 60, 600, monitors=[M.mon_c03], props=['C03'], sub='loop', variants=2, scheds=QUIESCENT),
+            part('loop', FLOW, 60, 600, monitors=[M.mon_c03], props=['C03'], sub='loop', twojumps=0.0, variants=2, scheds=QUIESCENT),
             part('error', ERROR, 300, 6000, monitors=[M.mon_c03], props=['C03'], chunk=60, second_error=True),
             part('b2b', ACTIONS, 900, 12000, monitors=[M.mon_c03], props=['C03'], sub='b2b'),
             part('timeout', TIMEOUT, 250, 5000, monitors=[M.mon_c03], props=['C03'], chunk=80),
@@ -209,7 +209,7 @@ PROPS = {
             part('plain', FLOW, 700, 10000, monitors=[M.mon_c08], props=['C08'], sub='plain', variants=3, scheds=ALLSCHED, snap='live'),
             part('matrix', ACTIONS, 700, 12000, monitors=[M.mon_c08], props=['C08'], sub='matrix'),
             part('duel', ACTIONS, 300, 6000, monitors=[M.mon_c08], props=['C08'], sub='duel'),
-            part('loop', FLOW, 40, 400, monitors=[M.mon_c08], props=['C08'], sub='loop', variants=2, scheds=QUIESCENT, snap='live'),
+            part('loop', FLOW, 40, 400, monitors=[M.mon_c08], props=['C08'], sub='loop', twojumps=0.0, variants=2, scheds=QUIESCENT, snap='live'),
             part('error', ERROR, 300, 6000, monitors=[M.mon_c08], props=['C08'], chunk=60, second_error=True),
             part('gen', GEN, 200, 4000, monitors=[M.mon_c08], props=['C08'], chunk=60, sub='gen'),
             part('hooks', GEN, 200, 4000, monitors=[M.mon_c08], props=['C08'], chunk=60, sub='hooks'),
